@@ -340,6 +340,43 @@ def miri_runs(shards, workdir, timeout):
     return pool_map(one, shards, max(2, NCPU - 2))
 
 
+# --------------------------------------------------------------------------- AddressSanitizer tier
+def build_harness_asan():
+    """nightly build of the harness with -Zsanitizer=address (no quarantine: ASan is the use-after-free detector)"""
+    d = os.path.join(VERIF, 'harness')
+    target = os.path.join(VERIF, 'work', 'asan-target' + ('' if REPO == '/repo' else '-' + hashlib.sha1(REPO.encode()).hexdigest()[:8]))
+    cmd = ['cargo', '+nightly', 'build', '--offline', '--quiet', '--target', 'x86_64-unknown-linux-gnu', '--target-dir', target,
+           '--manifest-path', os.path.join(d, 'Cargo.toml')]
+    if REPO != '/repo':
+        cmd += ['--config', 'paths=["%s"]' % REPO]
+    env = dict(os.environ, RUSTFLAGS='-Zsanitizer=address', CARGO_NET_OFFLINE='true')
+    with open(os.path.join(VERIF, 'work', '.cargo-asan.lock'), 'w') as lk:
+        fcntl.flock(lk, fcntl.LOCK_EX)
+        p = subprocess.run(cmd, cwd=d, env=env, stdout=subprocess.PIPE, stderr=subprocess.STDOUT, text=True, timeout=1800)
+    if p.returncode != 0:
+        return None, p.stdout[-1500:]
+    return os.path.join(target, 'x86_64-unknown-linux-gnu', 'debug', 'cvh'), ''
+
+
+def asan_run(binary, kind, cfg, keys, driver, flags, extra=(), timeout=1800):
+    cmd = [binary, 'exec', '--kind', kind, '--cfg', json.dumps(cfg), '--keys', str(keys), '--in', driver, '--light'] + list(flags) + list(extra)
+    env = dict(os.environ, ASAN_OPTIONS='detect_leaks=0:abort_on_error=0:halt_on_error=1')
+    t0 = time.time()
+    try:
+        p = subprocess.run(cmd, stdout=subprocess.PIPE, stderr=subprocess.PIPE, text=True, timeout=timeout, env=env)
+        rc, err = p.returncode, p.stderr
+    except subprocess.TimeoutExpired:
+        return dict(rc=124, asan=False, tail='timeout', stats=None, wall_s=round(time.time() - t0, 1))
+    stats = None
+    for line in err.splitlines():
+        if line.startswith('{'):
+            try:
+                stats = json.loads(line)
+            except Exception:
+                pass
+    return dict(rc=rc, asan='AddressSanitizer' in err, tail=err[-2500:], stats=stats, wall_s=round(time.time() - t0, 1))
+
+
 # --------------------------------------------------------------------------- harness exec
 def harness_exec(binary, kind, cfg, keys, infile, outprefix, flags=(), shard=20000, extra=(), timeout=3600):
     cmd = [binary, 'exec', '--kind', kind, '--cfg', json.dumps(cfg), '--keys', str(keys), '--in', infile,
